@@ -30,7 +30,9 @@ m = {
     "setup_cmd": "./check setup",
     "hooks": {
         "guard": "OMPL_VERIF",
-        "enable": "checks compile /repo/src/ompl into /verif/.build/<flavor>/libompl.a with -DOMPL_VERIF (build-support/CMakeLists.txt); no file under /repo is written",
+        "enable": "checks compile /repo/src/ompl into /verif/.build/<flavor>/libompl.a with -DOMPL_VERIF (build-support/CMakeLists.txt); no file under /repo is written. "
+                  "The only hook is ompl/util/VerifHooks.h: OMPL_VERIF_YIELD(site) at the lock sites of pRRT, pSBL, PRM, CForest and AnytimePathShortening "
+                  "(expands to nothing without the define); the C19 companion harness installs a callback there that yields / sleeps",
         "baseline_off_cmd": "cmake --build /repo/_build -j16 && ctest --test-dir /repo/_build -j8 --timeout 900",
         "source_commits": HOOK_COMMITS,
         "add_only": True,
